@@ -170,6 +170,17 @@ pub fn gen_sql(rng: &mut Rng) -> (String, bool) {
         // set operations
         7 => { let op = *rng.pick(&["UNION", "UNION ALL", "INTERSECT", "EXCEPT"]);
                (format!("SELECT a AS x, b AS y FROM t1{} {op} SELECT a AS x, a - 2 AS y FROM t2", if rng.chance(1, 2) { " WHERE b > 0" } else { "" }), false) }
+        // diamonds: one sub-query used on both sides of a join / set operation, with further nodes on each side
+        8 if rng.chance(1, 2) => {
+            let base = format!("SELECT a AS a, b AS b, c AS c FROM t1{}", if rng.chance(1, 2) { " WHERE b > -2" } else { "" });
+            let (lo, hi) = (format!("SELECT a AS a, b + 1 AS v FROM t WHERE a < {}", rng.range(3, 9)), format!("SELECT a AS a, c AS w FROM t WHERE a >= {}", rng.range(0, 5)));
+            match rng.below(4) {
+                0 => (format!("WITH t AS ({base}), lo AS ({lo}), hi AS ({hi}) SELECT lo.a AS x, lo.v AS v, hi.w AS w FROM lo JOIN hi ON lo.a = hi.a"), false),
+                1 => (format!("WITH t AS ({base}), lo AS ({lo}), hi AS (SELECT a AS a, b AS v FROM t WHERE a >= 2) SELECT a AS a, v AS v FROM lo UNION ALL SELECT a AS a, v AS v FROM hi"), false),
+                2 => (format!("WITH t AS ({base}), g AS (SELECT b AS b, count(*) AS n FROM t GROUP BY b) SELECT t.a AS a, g.n AS n FROM t JOIN g ON t.b = g.b"), false),
+                _ => (format!("WITH t AS ({base}), lo AS ({lo}) SELECT u.a AS x, lo.v AS v FROM (SELECT a AS a FROM t WHERE c > 1) AS u LEFT JOIN lo ON u.a = lo.a"), false),
+            }
+        }
         // CTEs
         8 => (format!("WITH u AS (SELECT a AS a, b * 2 AS bb, d AS d FROM t1{where_w}), v AS (SELECT a AS a, count(*) AS n FROM t2 GROUP BY a) SELECT u.a AS a, u.bb AS bb, v.n AS n FROM u JOIN v ON u.a = v.a", where_w = if rng.chance(1, 2) { " WHERE b < 4" } else { "" }), false),
         // functions of unique columns (uniqueness is propagated through functions listed as bijections)
